@@ -1,62 +1,85 @@
 (* C12 - loopback and private destinations are refused unless the user is allowed.
    Statements only; each is closed by [exact] of a lemma of proofs/EgressProofs.v.
-   The model (model/Egress.v) describes /repo WITH fixes/C12-findaction-local-forms.diff and
-   fixes/C12-udp-relay.diff applied.  LoopDest / PrivDest / LoopDestFull are the property's sets
-   (model/Egress.v, last section), written on numeric address ranges, independent of the byte tests.
-   Non-vacuity: Examples ex_reject_name, ex_reject_mapped_private, ex_allowed, ex_first_match, ex_relay. *)
+   The model (model/Egress.v) describes /repo with fixes/C12-findaction-local-forms.diff and
+   fixes/C12-udp-relay.diff applied; its parameter fx says whether fixes/C12-domain-literal.diff is applied
+   too (true in all theorems except C12_domain_literal_refuted_before_fix), and C12_tree_fixed says that
+   the tree the constants were regenerated from is the fixed one.
+   lit is the reading of a domain string as an IP literal by Go's resolver and dialer (netip.ParseAddr, zone
+   dropped, unmapped); the theorems hold for every lit that is lit_sane (the empty string and the well-known
+   names are no literals) / lit_bytes_ok (a literal denotes byte values); the driver supplies the real one.
+   LoopDest / PrivDest / LoopDestFull are the property's sets (model/Egress.v, last section), written on
+   numeric address ranges, independent of the byte tests; HostIs: the address in binary form or as a literal.
+   Non-vacuity: Examples ex_reject_name, ex_reject_mapped_private, ex_allowed, ex_first_match, ex_relay,
+   ex_literal_fixed. *)
 From Coq Require Import List NArith ZArith Bool.
 From M Require Import gen.Consts model.Egress proofs.EgressProofs.
 Import ListNotations.
 Open Scope N_scope.
 
 (* requests: a CONNECT or UDP ASSOCIATE whose destination is in the loopback class (loopback IP in 4-byte,
-   mapped or native form, empty host, well-known name in any letter case, unspecified address in CONNECT)
-   from a user without the loopback permission is answered REJECT; same for the private class *)
-Theorem C12_reject_local : forall cfg uname data idx cmd a,
+   mapped or native form or written as an IP literal in a domain-typed address, empty host, well-known name
+   in any letter case with or without the trailing dot, unspecified address in CONNECT) from a user without
+   the loopback permission is answered REJECT; same for the private class *)
+Theorem C12_reject_local : forall lit, lit_sane lit -> forall cfg uname data idx cmd a,
   parse_request data = Some (cmd, a) -> is_conn_or_assoc cmd ->
-  (LoopDest cmd a -> c_allow_loop_dest cfg = false -> user_loop cfg uname = false ->
-     find_action cfg true uname data idx = (ACT_REJECT, None)) /\
-  (PrivDest a -> user_priv cfg uname = false ->
-     find_action cfg true uname data idx = (ACT_REJECT, None)).
+  (LoopDest lit cmd a -> c_allow_loop_dest cfg = false -> user_loop cfg uname = false ->
+     find_action true lit cfg true uname data idx = (ACT_REJECT, None)) /\
+  (PrivDest lit a -> user_priv cfg uname = false ->
+     find_action true lit cfg true uname data idx = (ACT_REJECT, None)).
 Proof. exact c12_reject_local. Qed.
 Print Assumptions C12_reject_local.
 
 (* relayed datagrams: over every association (any datagrams, both relay modes), nothing is sent to a
    destination of the loopback class (unspecified address included, no exception) or of the private class
-   unless the user of the association has that permission *)
-Theorem C12_relay_no_local : forall cfg uname stop pkts a,
-  In a (relay_run cfg uname stop pkts) ->
-  (LoopDestFull a -> c_allow_loop_dest cfg = false -> user_loop cfg uname = true) /\
-  (PrivDest a -> user_priv cfg uname = true).
+   - named in binary or as a literal in a domain-typed header - unless the user has that permission *)
+Theorem C12_relay_no_local : forall lit, lit_sane lit -> forall cfg uname stop pkts a,
+  In a (relay_run true lit cfg uname stop pkts) ->
+  (LoopDestFull lit a -> c_allow_loop_dest cfg = false -> user_loop cfg uname = true) /\
+  (PrivDest lit a -> user_priv cfg uname = true).
 Proof. exact c12_relay_no_local. Qed.
 Print Assumptions C12_relay_no_local.
 
 (* the text of the property also asks REJECT for a UDP ASSOCIATE *request* naming the unspecified address:
    false of the code, deliberately (RFC 1928 tells clients to send all zeros; nothing is ever sent there) *)
 Theorem C12_assoc_unspecified_refuted :
-  exists cfg uname data idx a,
+  exists lit cfg uname data idx a,
+    lit_sane lit /\
     parse_request data = Some (CMD_ASSOC, a) /\ UnspecIP (a_ip a) /\ a_fqdn a = [] /\
     c_allow_loop_dest cfg = false /\ user_loop cfg uname = false /\
-    find_action cfg true uname data idx = (ACT_DIRECT, None).
+    find_action true lit cfg true uname data idx = (ACT_DIRECT, None).
 Proof. exact c12_assoc_unspecified_refuted. Qed.
 Print Assumptions C12_assoc_unspecified_refuted.
 
+(* before fixes/C12-domain-literal.diff (fx = false): CONNECT of the unknown user to the domain-typed
+   literal "127.0.0.1" (in LoopDest), and to "localhost." (a LocalName), is answered DIRECT *)
+Theorem C12_domain_literal_refuted_before_fix :
+  (exists lit cfg uname data idx a,
+     lit_sane lit /\ parse_request data = Some (CMD_CONNECT, a) /\ LoopDest lit CMD_CONNECT a /\
+     c_allow_loop_dest cfg = false /\ user_loop cfg uname = false /\
+     find_action false lit cfg true uname data idx = (ACT_DIRECT, None)) /\
+  (exists lit cfg uname data idx a,
+     lit_sane lit /\ parse_request data = Some (CMD_CONNECT, a) /\ a_ip a = [] /\ LocalName (a_fqdn a) /\
+     c_allow_loop_dest cfg = false /\ user_loop cfg uname = false /\
+     find_action false lit cfg true uname data idx = (ACT_DIRECT, None)).
+Proof. exact c12_domain_literal_refuted_before_fix. Qed.
+Print Assumptions C12_domain_literal_refuted_before_fix.
+
 (* users granted the access, and all destinations outside the two classes, get exactly what the rule list
    says (wire bytes < 256) *)
-Theorem C12_allowed_unaffected : forall cfg uname data idx cmd a,
+Theorem C12_allowed_unaffected : forall lit, lit_bytes_ok lit -> forall cfg uname data idx cmd a,
   bytes_ok data -> parse_request data = Some (cmd, a) -> is_conn_or_assoc cmd ->
-  (LoopDest cmd a -> user_loop cfg uname = true \/ c_allow_loop_dest cfg = true) ->
-  (PrivDest a -> user_priv cfg uname = true) ->
-  find_action cfg true uname data idx = rules_action cfg a idx.
+  (LoopDest lit cmd a -> user_loop cfg uname = true \/ c_allow_loop_dest cfg = true) ->
+  (PrivDest lit a -> user_priv cfg uname = true) ->
+  find_action true lit cfg true uname data idx = rules_action cfg a idx.
 Proof. exact c12_allowed_unaffected. Qed.
 Print Assumptions C12_allowed_unaffected.
 
 (* a datagram to a destination with a host is relayed exactly when that decision is not REJECT *)
-Theorem C12_relay_filter_exact : forall cfg uname stop c a,
+Theorem C12_relay_filter_exact : forall lit fx cfg uname stop c a,
   parse_addr c = Some (a, []) -> ~ (a_ip a = [] /\ a_fqdn a = []) ->
   forall payload, (3 < length (c ++ payload))%nat ->
-  relay_step cfg uname stop ([0; 0; 0] ++ c ++ payload) =
-  if fst (find_action cfg true uname (VER :: CMD_CONNECT :: 0 :: c) 0) =? ACT_REJECT then RDropped else RSent a.
+  relay_step fx lit cfg uname stop ([0; 0; 0] ++ c ++ payload) =
+  if fst (find_action fx lit cfg true uname (VER :: CMD_CONNECT :: 0 :: c) 0) =? ACT_REJECT then RDropped else RSent a.
 Proof. exact relay_step_filter. Qed.
 Print Assumptions C12_relay_filter_exact.
 
@@ -68,3 +91,9 @@ Theorem C12_first_match : forall cfg a idx,
   ((forall r, In r (c_rules cfg) -> match_rule a r = false) -> rules_action cfg a idx = (ACT_DIRECT, None)).
 Proof. exact c12_first_match. Qed.
 Print Assumptions C12_first_match.
+
+(* the tree under test contains fixes/C12-domain-literal.diff (probe regenerated with the constants):
+   the model executed by the correspondence run is the one the theorems above speak about *)
+Theorem C12_tree_fixed : tree_fixed = true.
+Proof. exact c12_tree_fixed. Qed.
+Print Assumptions C12_tree_fixed.
